@@ -220,7 +220,7 @@ theorem stat_of_not_link (fs : FSL.FS) (q : FSL.Path) (h : isLink fs q = false) 
   | none => simp
   | some n =>
     cases n with
-    | link t => simp [hq] at h
+    | link t n => simp [hq] at h
     | dir => simp [hq]
     | file c m => simp [hq]
 
@@ -231,13 +231,13 @@ theorem link_tests_refine_local (fs : FSL.FS) (p : FSL.Path) :
   ⟨rfl, rfl, rfl, rfl⟩
 
 /-- a dangling link: `exists` is false on both sides, `is_symlink` true on both sides -/
-example : testE (fun q => if q = ["l"] then some (.link ["missing"]) else if q = [] then some .dir else none) ["l"] = false ∧
-    testL (fun q => if q = ["l"] then some (.link ["missing"]) else if q = [] then some .dir else none) ["l"] = true := by decide
+example : testE (fun q => if q = ["l"] then some (.link ["missing"] 7) else if q = [] then some .dir else none) ["l"] = false ∧
+    testL (fun q => if q = ["l"] then some (.link ["missing"] 7) else if q = [] then some .dir else none) ["l"] = true := by decide
 
 /-- **`symlink_to` agrees with the local API when nothing is at the destination** (what is missing for the full statement:
     `ln -snf` replaces an existing file or link and creates the link *inside* an existing directory, `os.symlink` refuses both) -/
-theorem symlink_to_refines_local_partial (fs : FSL.FS) (p target : FSL.Path) (base : String) (h : lstat fs p = none) :
-    remoteSymlink fs p target base = localSymlink fs p target := by
+theorem symlink_to_refines_local_partial (fs : FSL.FS) (p target : FSL.Path) (tlen : Nat) (base : String) (h : lstat fs p = none) :
+    remoteSymlink fs p target tlen base = localSymlink fs p target tlen := by
   unfold remoteSymlink localSymlink isDirL
   simp [h]
 
@@ -246,24 +246,33 @@ def fs1 : FSL.FS := fun q =>
   if q = [] then some .dir else if q = ["f"] then some (.file ['a', 'b', 'c'] 0o644) else if q = ["d"] then some .dir else none
 
 theorem symlink_to_existing_file_false :
-    localSymlink fs1 ["f"] ["d"] = none ∧ (remoteSymlink fs1 ["f"] ["d"] "d").isSome = true := by decide
+    localSymlink fs1 ["f"] ["d"] 1 = none ∧ (remoteSymlink fs1 ["f"] ["d"] 1 "d").isSome = true := by decide
 
 theorem symlink_to_existing_dir_false :
-    localSymlink fs1 ["d"] ["f"] = none ∧
-    (remoteSymlink fs1 ["d"] ["f"] "f").map (fun fs => fs ["d", "f"]) = some (some (.link ["f"])) := by decide
+    localSymlink fs1 ["d"] ["f"] 1 = none ∧
+    (remoteSymlink fs1 ["d"] ["f"] 1 "f").map (fun fs => fs ["d", "f"]) = some (some (.link ["f"] 1)) := by decide
 
 /-- non-vacuity: a fresh name in an existing directory -/
-example : remoteSymlink fs1 ["d", "new"] ["f"] "f" = localSymlink fs1 ["d", "new"] ["f"] ∧
-    (localSymlink fs1 ["d", "new"] ["f"]).isSome = true :=
-  ⟨symlink_to_refines_local_partial fs1 _ _ _ (by decide), by decide⟩
+example : remoteSymlink fs1 ["d", "new"] ["f"] 4 "f" = localSymlink fs1 ["d", "new"] ["f"] 4 ∧
+    (localSymlink fs1 ["d", "new"] ["f"] 4).isSome = true :=
+  ⟨symlink_to_refines_local_partial fs1 _ _ _ _ (by decide), by decide⟩
 
-/-- **`hardlink_to` agrees with the local API when nothing is at the destination** -/
+/-- **`hardlink_to` agrees with the local API when nothing is at the destination** (a regular file or a symbolic link as target:
+    both sides link the entry itself; anything else is an error on both sides) -/
 theorem hardlink_to_refines_local_partial (fs : FSL.FS) (p target : FSL.Path) (base : String) (h : lstat fs p = none) :
     remoteHardlink fs p target base = localHardlink fs p target := by
   unfold remoteHardlink localHardlink isDirL
-  cases lstat fs target with
+  cases hl : linkable (lstat fs target) with
   | none => rfl
-  | some n => cases n <;> simp [h]
+  | some nd =>
+    have hne : (p == target) = false := by
+      cases hpt : (p == target) with
+      | false => rfl
+      | true =>
+        have : p = target := by simpa using hpt
+        subst this
+        simp [h, linkable] at hl
+    simp [h, hne]
 
 theorem hardlink_to_existing_false :
     localHardlink fs1 ["d"] ["f"] = none ∧ (remoteHardlink fs1 ["d"] ["f"] "f").isSome = true := by decide
@@ -287,23 +296,32 @@ theorem size_refines_local_partial (fs : FSL.FS) (dom : List FSL.Path) (p : FSL.
   have hp := hnl p (List.prefix_refl p)
   have hsym : localIsSymlink fs p = false := hp
   have hf : testF fs p = localIsFile fs p := rfl
-  rw [hf, hsym, stat_of_not_link fs p hp]
+  have hls : ∀ q, isLink fs q = false → lsSize fs q = fileSize (lstat fs q) := by
+    intro q hq
+    unfold lsSize
+    rw [stat_of_not_link fs q hq]
+    unfold isLink at hq
+    cases hl : lstat fs q with
+    | none => rfl
+    | some nd => cases nd <;> simp_all [fileSize]
+  rw [hf, hsym, hls p hp]
   simp only [Bool.false_eq_true, if_false]
   congr 2
   apply List.map_congr_left
   intro q hq
   simp only [List.mem_filter, Bool.and_eq_true, decide_eq_true_eq] at hq
-  rw [hnl q hq.2.1, stat_of_not_link fs q (hnl q hq.2.1)]
+  rw [hnl q hq.2.1, hls q (hnl q hq.2.1)]
   simp
 
 /-- a directory `d` with a link `d/l` to the file `f` (3 bytes) -/
 def fs2 : FSL.FS := fun q =>
   if q = [] then some .dir else if q = ["f"] then some (.file ['a', 'b', 'c'] 0o644) else if q = ["d"] then some .dir
-  else if q = ["d", "l"] then some (.link ["f"]) else none
+  else if q = ["d", "l"] then some (.link ["f"] 4) else none
 
-/-- with a link below the directory the two sides differ: 0 locally, 3 remotely -/
+/-- with a link below the directory the two sides differ: 0 locally; remotely `find -L` selects the link and `ls -ln` adds the
+    length of its text (4 for `../f`) -/
 theorem size_with_link_false :
-    localSize fs2 [[], ["f"], ["d"], ["d", "l"]] ["d"] = 0 ∧ remoteSize fs2 [[], ["f"], ["d"], ["d", "l"]] ["d"] = 3 := by decide
+    localSize fs2 [[], ["f"], ["d"], ["d", "l"]] ["d"] = 0 ∧ remoteSize fs2 [[], ["f"], ["d"], ["d", "l"]] ["d"] = 4 := by decide
 
 example : remoteSize fs1 [[], ["f"], ["d"]] [] = 3 ∧ localSize fs1 [[], ["f"], ["d"]] [] = 3 := by decide
 
